@@ -155,7 +155,7 @@ fn c15_sentence(rng: &mut Rng) -> RefSentence {
     let uw = *rng.pick(&[0u32, 3, 10]);
     let labels = vgen::gen::gen_labels(rng, n - 1, uw);
     let n_tags = if rng.chance(1, 80) { rng.urange(31, 40) } else { rng.below(4) };
-    let tags = (0..n).map(|_| (0..n_tags).map(|_| if rng.chance(1, 3) { Some(rng.pick(&["N", "V", "x y"]).to_string()) } else { None }).collect()).collect();
+    let tags = (0..n).map(|_| (0..n_tags).map(|_| if rng.chance(1, 3) { Some(rng.pick(&["N", "V", "x y", ""]).to_string()) } else { None }).collect()).collect();
     RefSentence { chars, labels, tags }
 }
 
@@ -173,7 +173,7 @@ fn c15_rules(rng: &mut Rng, rs: &RefSentence) -> Vec<(String, Vec<Option<String>
             continue;
         }
         let k = if rs.max_tags() > 8 { rng.urange(30, 42) } else { rng.below(5) };
-        rules.push((surf, (0..k).map(|_| if rng.chance(3, 4) { Some(rng.pick(&["P", "Q", "r/s"]).to_string()) } else { None }).collect()));
+        rules.push((surf, (0..k).map(|_| if rng.chance(3, 4) { Some(rng.pick(&["P", "Q", "r/s", ""]).to_string()) } else { None }).collect()));
     }
     rules
 }
@@ -271,6 +271,7 @@ pub fn run_c15(ctx: &mut Ctx, from: u64, to: u64) {
         ctx.flag("sentences_with_cr_or_lf", rs.chars.iter().any(|&c| c == '\r' || c == '\n'));
         ctx.flag("sentences_with_unknown_boundary", rs.labels.contains(&2));
         ctx.flag("sentences_with_tags", rs.max_tags() > 0);
+        ctx.flag("sentences_with_empty_string_tag", rs.tags.iter().flatten().any(|t| t.as_deref() == Some("")));
         ctx.flag("single_character_sentences", rs.chars.len() == 1);
         ctx.flag("sentences_with_cluster_longer_than_64_bytes", s.graphemes(true).any(|g| g.len() > 64));
         ctx.flag("sentences_with_more_than_32_tag_columns", rs.max_tags() > 32);
@@ -361,7 +362,14 @@ pub fn run_c16s(ctx: &mut Ctx, from: u64, to: u64) {
     for k in from..to {
         ctx.begin_case(k);
         let mut rng = Rng::new(case_seed(ctx.seed, "C16s", k));
-        let mut s = match rng.below(4) {
+        let mut s = match rng.below(5) {
+            4 => {
+                // decomposed (NFD-style) kana: base + combining voiced / semi-voiced sound marks, half-width forms
+                const KANA: &[char] = &['か', 'き', 'は', 'ひ', 'う', 'テ', 'ハ', 'ウ', 'ｶ', 'ﾊ', '\u{3099}', '\u{309a}', 'ﾞ', 'ﾟ', 'ー', 'a'];
+                let n = rng.urange(2, 40);
+                ctx.count("strings_with_decomposed_kana", 1);
+                (0..n).map(|_| *rng.pick(KANA)).collect::<String>()
+            }
             0 => {
                 // long printable-ASCII strings (URLs, timestamps, identifiers): all table keys in context
                 let n = rng.urange(20, 200);
